@@ -18,10 +18,12 @@ ITEMS = [
     Item('DumperBase.attr-helpers', DM.sym_attr_helpers, [('differential', DM.nat_attr_helpers)], DM.D + 'dumper_base.py::DumperBase.set_attr'),
     Item('DumperBase.row_counter', DM.sym_row_counter, [], DM.D + 'dumper_base.py::DumperBase.row_counter'),
     Item('FileDumper.rows_processor', DM.sym_rows_processor, [], DM.D + 'file_dumper.py::FileDumper.rows_processor'),
+    Item('DumperBase.insert_hash_in_path', DM.sym_insert_hash_in_path, [], DM.D + 'dumper_base.py::DumperBase.insert_hash_in_path'),
     Item('FileDumper.hash_handler', DM.sym_hash_handler, [], DM.D + 'file_dumper.py::FileDumper.hash_handler'),
     Item('FileDumper.handle_datapackage', DM.sym_handle_datapackage, [], DM.D + 'file_dumper.py::FileDumper.handle_datapackage'),
     Item('PathDumper.write_file_to_output', DM.sym_write_file_to_output, [], DM.D + 'to_path.py::PathDumper.write_file_to_output'),
     Item('PathDumper.write_file_to_output.faulty', DM.sym_write_file_to_output_faulty, [], DM.D + 'to_path.py::PathDumper.write_file_to_output'),
     Item('ZipDumper', DM.sym_zip_dumper, [], DM.D + 'to_zip.py::ZipDumper.write_file_to_output'),
-    Item('dumps', None, [('statistics', N.nat_dump_stats)], None),
+    Item('DumperBase.process_resources', DM.sym_process_resources, [], DM.D + 'dumper_base.py::DumperBase.process_resources'),
+    Item('dumps', None, [('statistics', N.nat_dump_stats), ('dropping-validator', N.nat_dump_dropping_validator)], None),
 ]
